@@ -33,9 +33,11 @@ Proof. exact ascii_passthrough_string. Qed.
 
 (* a character that exists in no codepage becomes '?' and its neighbours are encoded exactly as
    if it were not there *)
-Theorem c10_unrepresentable_is_qmark : forall enc cur a c b, unrepresentable enc c ->
-  enc_from enc cur (a ++ c :: b) = enc_from enc cur a ++ qmark :: enc_from enc (state_after enc cur a) b /\
-  enc_from enc cur (a ++ b) = enc_from enc cur a ++ enc_from enc (state_after enc cur a) b.
+Theorem c10_unrepresentable_is_qmark : forall enc cur after a c b, unrepresentable enc c ->
+  enc_from enc cur after (a ++ c :: b) =
+    enc_from enc cur after a ++ qmark :: enc_from enc (fst (state_after enc cur after a)) false b /\
+  (snd (state_after enc cur after a) = false ->
+   enc_from enc cur after (a ++ b) = enc_from enc cur after a ++ enc_from enc (fst (state_after enc cur after a)) false b).
 Proof. exact unrepresentable_is_qmark. Qed.
 
 (* the letter -> codepage table regenerated from the source is LFS's assignment (1252 1253 1251
@@ -44,5 +46,5 @@ Proof. exact unrepresentable_is_qmark. Qed.
 Theorem c10_table_assignment : assignment_ok = true.
 Proof. exact assignment_holds. Qed.
 
-Theorem c10_fast_path_unobservable : forall enc s, to_lossy_bytes enc s = enc_from enc gen_default_codepage s.
+Theorem c10_fast_path_unobservable : forall enc s, to_lossy_bytes enc s = enc_from enc gen_default_codepage false s.
 Proof. exact to_lossy_bytes_is_enc_from. Qed.
